@@ -5,6 +5,10 @@ import (
 	"regexp"
 	"strings"
 
+	"github.com/robfig/soy/ast"
+	"github.com/robfig/soy/soyhtml"
+	"github.com/robfig/soy/soymsg"
+
 	"verif/fw"
 	"verif/gen"
 	"verif/ref"
@@ -47,7 +51,7 @@ func htmlSafe(s string, allowedTags []string) (bool, string) {
 
 var c03Modes = []string{"", "true", "false", "contextual"}
 
-var c03Paths = []string{"direct", "let-value", "let-content", "param-value", "param-content", "msg-placeholder", "data-all", "nested-content", "print-after-call", "print-in-loop-around-call"}
+var c03Paths = []string{"direct", "let-value", "let-content", "param-value", "param-content", "msg-placeholder", "data-all", "nested-content", "print-after-call", "print-in-loop-around-call", "msg-twin-placeholders"}
 
 type c03Chain []ref.Dir
 
@@ -152,6 +156,9 @@ func c03Program(path string, nsMode, tMode, cNsMode, cTMode string, ch c03Chain)
 		main.Body = []ref.Node{&ref.CallT{Target: "nb.c", NameSrc: "nb.c", Params: []ref.Param{{Name: "p", IsContent: true, Content: []ref.Node{pr(v, ch)}}}}}
 	case "msg-placeholder":
 		main.Body = []ref.Node{&ref.Msg{Desc: "d", Body: []ref.Node{&ref.Raw{Text: "["}, pr(v, ch), &ref.Raw{Text: "]"}}}}
+	case "msg-twin-placeholders":
+		// the same expression twice in one message, once under a cancelling directive and once under the chain
+		main.Body = []ref.Node{&ref.Msg{Desc: "d", Body: []ref.Node{&ref.Raw{Text: "("}, pr(v, c03Chain{{Name: "noAutoescape"}}), &ref.Raw{Text: ")["}, pr(v, ch), &ref.Raw{Text: "]"}}}}
 	case "data-all":
 		callee.Params = []ref.ParamDecl{{Name: "v"}}
 		callee.Body = []ref.Node{lb, pr(v, ch), rb}
@@ -268,6 +275,26 @@ func init() {
 				id = fmt.Sprintf("%q|%s|%s/%s/%s/%s|%s", val.S, path, nsMode, tMode, cNs, cT, chainSrc(ch))
 			}
 			ctx.Eval(id)
+			if strings.HasPrefix(path, "msg-") && rerr == nil {
+				// a catalogue that translates every message into itself must not change a byte
+				if reg, cerr := compileRegistry(files, nil); cerr == nil {
+					idb := &fakeBundle{msgs: map[uint64]*soymsg.Message{}, locale: "xx"}
+					for _, t := range reg.Templates {
+						walkAst(t.Node, func(n ast.Node) {
+							if m, ok := n.(*ast.MsgNode); ok {
+								idb.msgs[m.ID] = soymsg.NewMessage(m.ID, soymsg.PlaceholderString(m))
+							}
+						})
+					}
+					got2, rerr2 := render(soyhtml.NewTofu(reg), "na.main", d, nil, idb)
+					ctx.Obs("identity_catalogue_renders", 1)
+					if rerr2 != nil || got2 != got {
+						cd.Got = got2
+						return fw.Result{Verdict: fw.Violated, Key: "escaping:identity-catalogue-changes-output@" + path, Case: cd,
+							Msg: fmt.Sprintf("value %q via %s chain %q: without a catalogue %q, with a catalogue that maps the message to itself %q (err %v)", fw.Trim(valString(val), 80), path, chainSrc(ch), fw.Trim(got, 200), fw.Trim(got2, 200), rerr2)}
+					}
+				}
+			}
 			judged, wbr := chainJudged(ch)
 			if wbr && (path == "let-content" || path == "param-content") {
 				judged = false // the <wbr> markup is escaped again by the outer print; positions are not modelled
@@ -284,6 +311,11 @@ func init() {
 			}
 			gotCmp := got
 			if notes.Wbr || wbr {
+				if path == "msg-twin-placeholders" && strings.Contains(valString(val), "<wbr>") {
+					// the raw copy of the value carries the very markup that is removed before comparing
+					ctx.Obs("totality_only", 1)
+					return fw.Result{Verdict: fw.Held}
+				}
 				gotCmp = strings.ReplaceAll(got, "<wbr>", "")
 			}
 			if r := compareRender(ctx, segs, st, gotCmp, rerr, cd); r != nil {
@@ -310,6 +342,14 @@ func init() {
 			inner := got
 			if l, rr := strings.Index(got, "["), strings.LastIndex(got, "]"); l >= 0 && rr > l {
 				inner = got[l+1 : rr]
+			}
+			if path == "msg-twin-placeholders" {
+				// "(" raw value ")[" value under the chain "]"
+				prefix := "(" + valString(val) + ")["
+				if !strings.HasPrefix(got, prefix) || !strings.HasSuffix(got, "]") {
+					return fw.Result{Verdict: fw.Held} // compared with the reference above; nothing more to slice out
+				}
+				inner = got[len(prefix) : len(got)-1]
 			}
 			if escapingCtx || (hasEscaper && !chainCancelsAfterEscaper(ch)) {
 				if path == "let-content" || path == "param-content" {
